@@ -5,8 +5,9 @@ from props import forest_common as fc
 THEOREMS = ['C05_sum_visitor_is_max', 'C05_sum_visitor_packed', 'C05_resolve_in_derivs', 'C05_resolve_lex_optimal',
             'C05_sort_key_meaning', 'C05_optimal', 'C05_optimal_uniform', 'C05_empty_precedence', 'C05_invert',
             'C05_none', 'C05_deterministic', 'C05_example', 'C05_empty_precedence_bites', 'C05_optimal_graph',
-            'C05_optimal_graph_walk', 'C05_optimal_graph_example', 'C05_sum_walk_eq_recursive']
-GEN_DEPS = ['ForestSortKey']
+            'C05_optimal_graph_walk', 'C05_optimal_graph_example', 'C05_sum_walk_eq_recursive',
+            'C05_compiled_priority_is_declared']
+GEN_DEPS = ['ForestSortKey', 'RulePriority']
 RULE = ('random acyclic ambiguous grammars (2-4 non-terminals, 1-3 alternatives, signed rule priorities `r.2:`, terminal '
         'priorities `A.3:`, colliding/overlapping string terminals, nullable alternatives, and in 60% of the grammars `x?`, '
         '`[x]` maybe-placeholders and groups `(x | y)` inside prioritised rules - several Rule/RuleOptions objects per definition), every string over '
@@ -99,8 +100,8 @@ def oracle(g, text, lexer, mode, ob=None, tabs=None):
     if ob is None or ob.get('cyclic'):
         return None
     if tabs is None:
-        tabs = fc.tables(fc.mk(g, lexer, 'forest', 'normal'))
-    rules, terms = tabs           # priorities as written in the grammar
+        tabs = fc.declared_tables(g, fc.mk(g, lexer, 'forest', 'normal'))
+    rules, terms = tabs           # priorities as written in the grammar TEXT (not read back from lark's Rule objects)
     try:
         ds, cyc, seq_ok = fc.enumerate_derivations(rules, terms, 'start', ob['units'], ob['dyn'])
     except fc.TooMany:
@@ -156,6 +157,23 @@ EXOTIC = [
 ]
 
 
+def placeholder_family():
+    """Systematic family: the ambiguity is decided by the priority of a rule one of whose compiled alternatives has an
+    ABSENT `[...]` placeholder (that alternative owns a copied RuleOptions object) or comes from `x?` / a group.
+    start: a | b;  a.P: <items with optionals>;  b.Q: <the mandatory items>;  texts: mandatory items alone and with each
+    optional present.  Every (shape, P, Q) x lexer x mode goes through the oracle (declared priorities)."""
+    shapes = [('X [Y]', 'X', ['x', 'xy']), ('[Y] X', 'X', ['x', 'yx']), ('X [Y] X', 'X X', ['xx', 'xyx']),
+              ('X [Y] [Z]', 'X', ['x', 'xy', 'xz', 'xyz']), ('X [Y Z]', 'X', ['x', 'xyz']), ('X Y?', 'X', ['x', 'xy']),
+              ('X (Y | Z)?', 'X', ['x', 'xz']), ('[Y] [Z] X', 'X', ['x', 'zx'])]
+    out = []
+    for a, b, texts in shapes:
+        for pa, pb in ((2, 1), (1, 2), (-2, -1), (-1, 1)):
+            g = 'start: a | b\na.%d: %s\nb.%d: %s | %s Y | %s Z | Y %s | Z %s\nX: "x"\nY: "y"\nZ: "z"\n' % (
+                pa, a, pb, b, b, b, b, b)
+            out.append((g, texts))
+    return out
+
+
 # Ambiguities whose derivations TIE on sort_key (same rule, different split point; equal priorities; ties inside
 # nested and intermediate nodes): the tie is broken by the insertion order of the packed nodes, i.e. by the order in
 # which the engine processed its items - which must not depend on the hash seed.  Always swept, whatever VERIF_SEED.
@@ -195,7 +213,7 @@ def oracle_ws(g, text, lexer, mode):
             _WS_CACHE.clear()
         try:
             pn = fc.mk(g, lexer, 'forest', 'normal')
-            _WS_CACHE[key] = (pn, fc.mk(g, lexer, 'resolve', mode), fc.tables(pn))
+            _WS_CACHE[key] = (pn, fc.mk(g, lexer, 'resolve', mode), fc.declared_tables(g, pn))
         except LarkError:
             _WS_CACHE[key] = None
     if _WS_CACHE[key] is None:
@@ -263,6 +281,18 @@ def correspond(ctx):
         ctx.count('regression-corpus', nontrivial=False)
         if msg:
             ctx.violation('oracle:regression-corpus', w, True, msg)
+    for g, texts in placeholder_family():
+        for text in texts:
+            for lexer in fc.LEXERS:
+                for mode in fc.MODES:
+                    w = dict(g=g, text=text, lexer=lexer, mode=mode)
+                    try:
+                        msg = fc.with_timeout(20, oracle, g, text, lexer, mode)
+                    except fc.Timeout:
+                        msg = 'parse/resolve did not finish in 20 s'
+                    ctx.count('placeholder-priority', key=(g, text, lexer, mode), nontrivial=True, lexer=lexer, mode=str(mode))
+                    if msg:
+                        ctx.violation('oracle:' + msg.split(' ')[0], w, True, msg)
     n_gram = ctx.scale(70, 400) * (3 if ctx.widen else 1)
     cases, meta = [], []
     tcases, tmeta, seen_tables = [], [], set()
@@ -276,7 +306,7 @@ def correspond(ctx):
         for text in texts:
             for lexer in fc.LEXERS:
                 try:
-                    tabs = fc.tables(fc.mk(g, lexer, 'forest', 'normal'))
+                    tabs = fc.declared_tables(g, fc.mk(g, lexer, 'forest', 'normal'))
                 except LarkError:
                     continue
                 for mode in fc.MODES:
